@@ -47,6 +47,41 @@ func runConnDrop(c *core.Ctx) {
 				}
 				return true
 			})
+			// local names for the connection and its codecs (`conn, enc, dec := res.conn, res.connEncoder, res.connDecoder`,
+			// never reassigned): an operation on the alias is an operation on the field's value
+			aliasOf := map[types.Object]*types.Var{}
+			reassigned := map[types.Object]bool{}
+			ast.Inspect(fn.Body(), func(m ast.Node) bool {
+				as, ok := m.(*ast.AssignStmt)
+				if !ok || len(as.Lhs) != len(as.Rhs) {
+					return true
+				}
+				for i, l := range as.Lhs {
+					o := an.ObjOf(info, l)
+					if o == nil {
+						continue
+					}
+					if _, isID := an.Unparen(l).(*ast.Ident); !isID {
+						continue
+					}
+					if f := an.SelectedField(info, as.Rhs[i]); f != nil && (f == conn || f == enc || f == dec) && aliasOf[o] == nil && !reassigned[o] {
+						aliasOf[o] = f
+					} else {
+						reassigned[o] = true
+						delete(aliasOf, o)
+					}
+				}
+				return true
+			})
+			fieldOrAlias := func(x ast.Expr) *types.Var {
+				if f := an.SelectedField(info, x); f != nil {
+					return f
+				}
+				if id, ok := an.Unparen(x).(*ast.Ident); ok {
+					return aliasOf[info.ObjectOf(id)]
+				}
+				return nil
+			}
 			setsNil := func(a ast.Node) bool {
 				as, ok := a.(*ast.AssignStmt)
 				if !ok {
@@ -90,7 +125,7 @@ func runConnDrop(c *core.Ctx) {
 				if !ok {
 					return false
 				}
-				if f := an.SelectedField(info, sel.X); f == enc || f == dec {
+				if f := fieldOrAlias(sel.X); f == enc || f == dec {
 					return sel.Sel.Name == "Encode" || sel.Sel.Name == "Decode"
 				}
 				return an.IsMethodNamed(an.CalleeFunc(info, call), an.PkgResources, typ, "resend")
